@@ -119,6 +119,148 @@ def _dispatch(task):
     return _fuzz_worker(task) if task[0] == "fuzz" else _worker(task)
 
 
+def _child(task, outpath, journal_path):
+    """One task = one fresh forked process (so a crash of the interpreter inside the code under test - a C library
+    calling exit(), a segmentation fault - costs one shard, is noticed, and cannot hang the run)."""
+    import pickle
+    H.JOURNAL = journal_path
+    res = _dispatch(task)
+    with open(outpath + ".tmp", "wb") as f:
+        pickle.dump(res, f, protocol=4)
+    os.replace(outpath + ".tmp", outpath)
+    sys.stdout.flush()
+    os._exit(0)
+
+
+def _isolated_replay(facet, case, tmp):
+    """--replay runs the case in a forked child: a case that makes the code under test terminate the interpreter
+    (the 'process died' violations of run_tasks) is reported as a violation again instead of killing the CLI."""
+    import pickle
+    ctx = mp.get_context("fork")
+    outpath = os.path.join(tmp, "replay-result.pkl")
+
+    def child():
+        try:
+            r = ("ok", H.run_replay(facet, case))
+        except H.HarnessError as e:
+            r = ("harness", str(e))
+        with open(outpath, "wb") as f:
+            pickle.dump(r, f)
+        sys.stdout.flush()
+        os._exit(0)
+
+    p = ctx.Process(target=child)
+    p.start()
+    p.join()
+    if not os.path.exists(outpath):
+        return (f"the process died ({_describe_exit(p.exitcode)}) while the code under test evaluated this case: the "
+                f"interpreter was terminated (C-level exit / crash) instead of returning a value or raising")
+    with open(outpath, "rb") as f:
+        kind, val = pickle.load(f)
+    if kind == "harness":
+        raise H.HarnessError(val)
+    return val
+
+
+def _describe_exit(code):
+    if code is None:
+        return "still running"
+    if code < 0:
+        import signal
+        try:
+            return f"killed by signal {signal.Signals(-code).name}"
+        except ValueError:
+            return f"killed by signal {-code}"
+    return f"exit status {code}"
+
+
+def run_tasks(tasks, nproc, prop, facets, base_seed, tier):
+    """Process scheduler replacing multiprocessing.Pool.map (which waits forever when a worker dies mid-task).
+
+    A worker that dies without delivering a result is re-run once in journal mode (harness.JOURNAL: every case is
+    written to a file before it is evaluated).  If it dies again, the journalled case is the input on which the code
+    under test terminated the interpreter: it is saved as a replay file and reported as a violation (every listed
+    property promises a value or a clean exception for the inputs generated).  If the re-run survives, the death was not
+    reproducible (e.g. an out-of-memory kill on a loaded machine): harness error, never a violation.  A task that
+    exceeds VERIF_TASK_TIMEOUT seconds of wall clock (default: quick 3600, thorough 8 h) is killed and reported as a
+    harness error ("inconclusive"), never as a violation."""
+    import pickle
+    from multiprocessing.connection import wait as mp_wait
+    ctx = mp.get_context("fork")
+    limit = float(os.environ.get("VERIF_TASK_TIMEOUT", "3600" if tier == "quick" else "28800"))
+    scratch = tempfile.mkdtemp(prefix=f"{prop}-sched-", dir=os.path.join(OUT, "tmp"))
+    results = [None] * len(tasks)
+    pending = [(i, False) for i in range(len(tasks))]
+    running = {}       # sentinel -> (proc, index, journal?, outpath, journal_path, t_start)
+
+    def name_of(task):
+        return (f"fuzz:{task[2]}", task[4]) if task[0] == "fuzz" else (task[1], task[3])
+
+    try:
+        while pending or running:
+            while pending and len(running) < nproc:
+                i, jmode = pending.pop(0)
+                outpath = os.path.join(scratch, f"res-{i}-{int(jmode)}.pkl")
+                jpath = os.path.join(scratch, f"journal-{i}.pkl") if jmode else None
+                p = ctx.Process(target=_child, args=(tasks[i], outpath, jpath))
+                p.start()
+                running[p.sentinel] = (p, i, jmode, outpath, jpath, time.time())
+            ready = mp_wait(list(running), timeout=5.0)
+            now = time.time()
+            for sent, (p, i, jmode, outpath, jpath, t_start) in list(running.items()):
+                if sent not in ready:
+                    if now - t_start > limit:
+                        p.kill()
+                        p.join()
+                        del running[sent]
+                        fname, shard = name_of(tasks[i])
+                        results[i] = {"facet": fname, "shard": shard,
+                                      "harness_error": f"inconclusive: shard exceeded the wall-clock limit of {limit:.0f} s "
+                                                       f"(VERIF_TASK_TIMEOUT) and was stopped"}
+                    continue
+                p.join()
+                del running[sent]
+                fname, shard = name_of(tasks[i])
+                if os.path.exists(outpath):
+                    with open(outpath, "rb") as f:
+                        results[i] = pickle.load(f)
+                    continue
+                how = _describe_exit(p.exitcode)
+                if tasks[i][0] == "fuzz":
+                    results[i] = {"facet": fname, "shard": shard, "harness_error": f"fuzz shard died ({how})"}
+                elif not jmode:
+                    print(f"NOTE property={prop} facet={fname} shard={shard}: worker process died ({how}); "
+                          f"re-running the shard in journal mode", flush=True)
+                    pending.insert(0, (i, True))
+                elif jpath and os.path.exists(jpath):
+                    with open(jpath, "rb") as f:
+                        case = pickle.load(f)
+                    facet = facets[fname]
+                    path = os.path.join(OUT, "replays", f"{prop}-{fname}-s{base_seed}-{shard}-died.json")
+                    msg = (f"the process died ({how}) while the code under test evaluated this case: the interpreter "
+                           f"was terminated (C-level exit / crash) instead of returning a value or raising")
+                    H.dump_replay(path, prop, facet, case, msg, base_seed)
+                    results[i] = {"facet": fname, "shard": shard, "evaluations": 0, "nontrivial": [], "tags": {},
+                                  "samples": [], "truncated": False, "extra": {"worker_died": 1}, "wall": now - t_start,
+                                  "lines": {}, "failure": {"replay": path, "message": msg, "bucket": "process-died"}}
+                else:
+                    results[i] = {"facet": fname, "shard": shard,
+                                  "harness_error": f"worker died twice ({how}) before evaluating any case"}
+            # a journal re-run that SURVIVED delivered an ordinary result; note the non-reproducible death
+        for i, r in enumerate(results):
+            if r is None:
+                fname, shard = name_of(tasks[i])
+                results[i] = {"facet": fname, "shard": shard, "harness_error": "no result"}
+    finally:
+        for p, *_ in running.values():
+            try:
+                p.kill()
+            except Exception:  # noqa: BLE001
+                pass
+        shutil.rmtree(scratch, ignore_errors=True)
+    return results
+
+
 MAX_KEYS = ("fuzz_edges_covered_max_over_shards", "fuzz_features_max_over_shards")
 
 
@@ -202,7 +344,7 @@ def main(argv=None):
         tmp = tempfile.mkdtemp(prefix=f"{prop}-replay-", dir=os.path.join(OUT, "tmp"))
         os.chdir(tmp)
         try:
-            msg = H.run_replay(facet, doc["case"])
+            msg = _isolated_replay(facet, doc["case"], tmp)
         except H.HarnessError as e:
             print(f"HARNESS-ERROR property={prop}: {e}")
             return 2
@@ -261,9 +403,7 @@ def main(argv=None):
         for s in range(ns):
             tasks.append(("fuzz", prop, name, tier, s, ns, base_seed, runs))
     # longest first is unknown; interleave facets so shards of one facet do not serialise
-    ctx = mp.get_context("fork")
-    with ctx.Pool(min(nproc, max(1, len(tasks))), maxtasksperchild=1) as pool:
-        results = pool.map(_dispatch, tasks, chunksize=1)
+    results = run_tasks(tasks, min(nproc, max(1, len(tasks))), prop, facets, base_seed, tier)
 
     per_facet = {}
     for r in results:
